@@ -223,6 +223,13 @@ def variants(fp, cls):
         add("badWeightType", "weight_type=str", lambda kw: kw.update(weight_type=str), {"wtype"})
     if cls in FLOW_DECOMP:
         add("nonConservingFlow", "flow(s,a) = 7", lambda kw: kw[g]["s"]["a"].__setitem__("flow", 7), {"w:sa"})
+        if cls in DAG:
+            # ... and an imbalance that is tiny relative to the values (a tolerance-based comparison would let it through)
+            def huge_off_by_one(kw):
+                for _, _, d in kw[g].edges(data=True):
+                    d["flow"] = d["flow"] * 10 ** 9
+                kw[g]["s"]["a"]["flow"] += 1
+            add("nonConservingFlow", "all flows * 10^9, then flow(s,a) += 1", huge_off_by_one, {"w:sa", "w:ab", "scale"})
     if constraint_key(cls) in sig:
         add("constraintNotListOfLists", "constraints=[(s,a)]", lambda kw: _cons(cls, kw, [("s", "a")]), {"cons"})
         add("constraintEmpty", "constraints=[[]]", lambda kw: _cons(cls, kw, [[]]), {"cons"})
@@ -252,6 +259,9 @@ def variants(fp, cls):
     if "additional_starts" in sig:
         add("unknownStart", "additional_starts=['zz']", lambda kw: kw.update(additional_starts=["zz"]), {"starts"})
         add("unknownEnd", "additional_ends=['zz']", lambda kw: kw.update(additional_ends=["zz"]), {"ends"})
+        # ... unknown and not even a string
+        add("unknownStart", "additional_starts=[7]", lambda kw: kw.update(additional_starts=[7]), {"starts"})
+        add("unknownEnd", "additional_ends=[None]", lambda kw: kw.update(additional_ends=[None]), {"ends"})
     if "error_scaling" in sig:
         for x in (1.5, -0.1):
             add("scalingOutOfRange", f"error_scaling={{(s,a): {x}}}", lambda kw, x=x: kw.update(error_scaling={("s", "a"): x}), {"scaling"})
